@@ -52,6 +52,7 @@ FP(op) ==
     [] op = "focus-get"       -> [r |-> {"node.basic", "linksystem", "store", "registry"}, w |-> {}, lock |-> {}]
     [] op = "transform"       -> [r |-> {"node.basic", "linksystem", "store", "registry"}, w |-> {}, lock |-> {}]
     [] op = "compile-selector" -> [r |-> {"selector.dmt", "node.basic", "linksystem", "store", "registry"}, w |-> {}, lock |-> {}]
+    [] op = "load-fs"         -> [r |-> {"linksystem.fs", "store.fs", "registry"}, w |-> {}, lock |-> {}]   \* a shared filesystem store, read only
     [] op = "bind-plain"      -> [r |-> {"typesystem"}, w |-> {}, lock |-> {}]
     [] op = "bind-converter"  -> [r |-> {"typesystem"}, w |-> {}, lock |-> {}]
 
